@@ -11,6 +11,7 @@ import (
 	"context"
 	"fmt"
 	"math/rand"
+	"net"
 	"os"
 	"sync"
 	"sync/atomic"
@@ -219,8 +220,13 @@ func vrServer(r *rand.Rand, id int) {
 
 // pool reconfiguration between phases (no Pick in flight while it changes)
 func vrReconfigure(r *rand.Rand) {
-	for _, n := range []int{3, 1, 2} {
+	for k, n := range []int{3, 1, 2} {
 		SetNumLoops(n)
+		if k == 1 {
+			SetLoadBalance(Random)
+		} else {
+			SetLoadBalance(RoundRobin)
+		}
 		var wg sync.WaitGroup
 		for i := 0; i < 6; i++ {
 			wg.Add(1)
@@ -241,6 +247,167 @@ func vrReconfigure(r *rand.Rand) {
 	}
 }
 
+// concurrent dials: a live TCP listener (connect, write, close), a port nobody listens on (refused), and a listener
+// whose backlog is full (dial runs into its timeout and detaches its pollDesc while the poller may fire it)
+func vrDial(r *rand.Rand) {
+	ln, err := net.Listen("tcp", "127.0.0.1:0")
+	if err != nil {
+		return
+	}
+	go func() {
+		for {
+			c, err := ln.Accept()
+			if err != nil {
+				return
+			}
+			go func() { buf := make([]byte, 64); c.Read(buf); c.Close() }()
+		}
+	}()
+	dead, err := net.Listen("tcp", "127.0.0.1:0")
+	if err != nil {
+		ln.Close()
+		return
+	}
+	deadAddr := dead.Addr().String()
+	dead.Close()
+	fullAddr := ""
+	fd, err := syscall.Socket(syscall.AF_INET, syscall.SOCK_STREAM, 0)
+	if err == nil {
+		if syscall.Bind(fd, &syscall.SockaddrInet4{Addr: [4]byte{127, 0, 0, 1}}) == nil && syscall.Listen(fd, 0) == nil {
+			if sa, err := syscall.Getsockname(fd); err == nil {
+				fullAddr = fmt.Sprintf("127.0.0.1:%d", sa.(*syscall.SockaddrInet4).Port)
+			}
+		}
+	}
+	var wg sync.WaitGroup
+	nd := 3 + r.Intn(5)
+	kinds := make([]int, nd)
+	tmo := make([]time.Duration, nd)
+	for i := range kinds {
+		kinds[i] = r.Intn(3)
+		tmo[i] = time.Duration(2+r.Intn(15)) * time.Millisecond
+	}
+	for i := 0; i < nd; i++ {
+		wg.Add(1)
+		go func(i int) {
+			defer wg.Done()
+			var c Connection
+			var err error
+			switch {
+			case kinds[i] == 1:
+				c, err = DialConnection("tcp", deadAddr, 200*time.Millisecond)
+			case kinds[i] == 2 && fullAddr != "":
+				c, err = DialConnection("tcp", fullAddr, tmo[i])
+			default:
+				c, err = DialConnection("tcp", ln.Addr().String(), time.Second)
+			}
+			if err != nil {
+				return
+			}
+			c.Writer().WriteBinary([]byte("dial"))
+			c.Writer().Flush()
+			c.Close()
+		}(i)
+	}
+	wg.Wait()
+	ln.Close()
+	if fd >= 0 && err == nil {
+		syscall.Close(fd)
+	}
+}
+
+// all four callbacks set; AddCloseCallback / SetOnRequest / Close from user goroutines while data arrives and the
+// peer closes; deadlines are set by the goroutine that reads / writes (inside the contract)
+func vrCallbacks(r *rand.Rand) {
+	type key struct{}
+	var hits int32
+	echo := func(ctx context.Context, c Connection) error {
+		atomic.AddInt32(&hits, 1)
+		_ = ctx.Value(key{})
+		c.SetReadDeadline(time.Now().Add(50 * time.Millisecond))
+		rd := c.Reader()
+		p, err := rd.Next(rd.Len())
+		if err != nil {
+			return err
+		}
+		q := append([]byte(nil), p...)
+		rd.Release()
+		c.SetWriteDeadline(time.Now().Add(50 * time.Millisecond))
+		c.Writer().WriteBinary(q)
+		return c.Writer().Flush()
+	}
+	closeInPrepare := r.Intn(8) == 0
+	ropts := &options{
+		onPrepare: func(c Connection) context.Context {
+			if closeInPrepare {
+				c.Close()
+			}
+			return context.WithValue(context.Background(), key{}, 1)
+		},
+		onConnect: func(ctx context.Context, c Connection) context.Context {
+			return context.WithValue(ctx, key{}, 2)
+		},
+		onDisconnect: func(ctx context.Context, c Connection) { _ = ctx.Value(key{}) },
+		onRequest:    echo,
+		readTimeout:  20 * time.Millisecond,
+	}
+	a, b, err := vrPair(ropts)
+	if err != nil {
+		return
+	}
+	if b.IsActive() {
+		b.onConnect() // what server.onAccept / the dialer do after init
+	}
+	var wg sync.WaitGroup
+	nmsg, gap := 1+r.Intn(4), time.Duration(r.Intn(400))*time.Microsecond
+	dClose, doClose, doSet := time.Duration(r.Intn(1500))*time.Microsecond, r.Intn(2) == 0, r.Intn(2) == 0
+	wg.Add(4)
+	go func() { // peer: writer
+		defer wg.Done()
+		for i := 0; i < nmsg; i++ {
+			a.SetWriteTimeout(10 * time.Millisecond)
+			if _, err := a.Write([]byte("callbacks-workload")); err != nil {
+				break
+			}
+			time.Sleep(gap)
+		}
+		time.Sleep(gap)
+		a.Close()
+	}()
+	go func() { // peer: reader
+		defer wg.Done()
+		for {
+			a.SetReadDeadline(time.Now().Add(5 * time.Millisecond))
+			if _, err := a.Reader().Next(1); err != nil {
+				return
+			}
+			a.Reader().Release()
+		}
+	}()
+	go func() {
+		defer wg.Done()
+		for i := 0; i < 3; i++ {
+			b.AddCloseCallback(func(Connection) error { return nil })
+			time.Sleep(gap / 2)
+		}
+		if doSet {
+			b.SetOnRequest(echo)
+			b.SetOnDisconnect(func(ctx context.Context, c Connection) {})
+		}
+	}()
+	go func() {
+		defer wg.Done()
+		time.Sleep(dClose)
+		if doClose {
+			b.Close()
+		}
+	}()
+	wg.Wait()
+	time.Sleep(300 * time.Microsecond)
+	a.Close()
+	b.Close()
+}
+
 // VerifRaceWorkloads runs `n` rounds of every shape, derived from seed.
 func VerifRaceWorkloads(seed int64, n int, which string) map[string]int {
 	counts := map[string]int{}
@@ -257,8 +424,12 @@ func VerifRaceWorkloads(seed int64, n int, which string) map[string]int {
 		run("close-vs-read", func() { vrCloseVsRead(r) })
 		run("close-vs-flush", func() { vrCloseVsFlush(r) })
 		run("detach-vs-hup", func() { vrDetachVsHup(r) })
+		run("callbacks", func() { vrCallbacks(r) })
 		if i%4 == 0 {
 			run("server-shutdown", func() { vrServer(r, i) })
+		}
+		if i%4 == 1 {
+			run("dial", func() { vrDial(r) })
 		}
 		if i%8 == 0 {
 			run("stream", func() {
